@@ -648,7 +648,7 @@ type c08Group struct {
 }
 
 func runC08(c *ev.Ctx) {
-	c.Rule = "each case = one run of a Fast workflow on a stream for which the sequential variant was also run: verdict and named failing item must match, every judged sample must be exactly one stream chunk judged once by exactly the expected items (12 for periodic), under perturbation (seeded Gosched/sleep delays inside Read and inside runners, GOMAXPROCS 1/2/4/16, 1/2/3/16 workers via taskset); the same scenarios run in a -race build and DATA RACE reports are counted. Streams are verdict-sensitive (all pass counts exactly at the threshold, uniformity at its boundary, only items 13-15 failing) plus real-runner PRNG/LFSR/biased streams; further source behaviours: 1..150 consecutive empty reads, one 10 s stall of 1300 empty reads, 60-120 ms per read, seekable reader types at non-zero positions, a failing run of another Fast workflow first in the same process. non-trivial = every Fast run (each is a separately scheduled execution); distinct = distinct (scenario descriptor, schedule signature observed)"
+	c.Rule = "each case = one run of a Fast workflow on a stream for which the sequential variant was also run: verdict and named failing item must match, every judged sample must be exactly one stream chunk judged once by exactly the expected items (12 for periodic), under perturbation (seeded Gosched/sleep delays inside Read and inside runners, GOMAXPROCS 1/2/4/16, 1/2/3/16 workers via taskset); the same scenarios run in a -race build and DATA RACE reports are counted. Streams are verdict-sensitive (all pass counts exactly at the threshold, uniformity at its boundary, only items 13-15 failing) plus real-runner PRNG/LFSR/biased streams; further source behaviours: 1..150 consecutive empty reads, one 10 s stall of 1300 empty reads, 60-120 ms per read, seekable reader types at non-zero positions, finite sources that end or fail exactly on a sample boundary (0, 1, S/2, S-1 whole samples) or one byte into the last sample, a failing run of another Fast workflow first in the same process. non-trivial = every Fast run (each is a separately scheduled execution); distinct = distinct (scenario descriptor, schedule signature observed)"
 	c.Assumptions = []string{"the Go race detector reports only races that occur in an observed execution", "the harness reader serialises Read calls (the property's precondition)"}
 	seed := uint64(c.Seed)
 	var scns []Scn
@@ -842,6 +842,39 @@ func runC08(c *ev.Ctx) {
 				id++
 				scns = append(scns, Scn{ID: id, WF: fname, Stream: st, Stub: true, Chunk: mon.ChunkPlan{Kind: "whole"}, Source: srcT, Prefix: pre, Delay: mon.DelayPlan{Mode: delays[k%4], Seed: uint64(id)}, Procs: procs[k%4], Note: fmt.Sprintf("source=%s start=%d rep%d", srcT, pre, k)})
 				raceOf[id] = k == 2
+				g.fast = append(g.fast, id)
+			}
+			groups = append(groups, g)
+		}
+	}
+	// finite sources that end (clean EOF) or fail exactly on a sample boundary, short of the full set (0, 1, S/2,
+	// S-1 whole samples), and one cut inside a sample: the sequential variant rejects with the read error, and
+	// the Fast variant must give that verdict too rather than judge the samples it happened to get
+	for _, fname := range []string{"PeriodFast", "PowerOnFast", "FactoryFast"} {
+		w := workflows[fname]
+		type cut struct {
+			off    int64
+			kind   string
+			sticky bool
+		}
+		cuts := []cut{{0, "eof", true}, {int64(w.B), "eof", false}, {int64(w.B * (w.S / 2)), "custom", true}, {int64(w.B * (w.S - 1)), "eof", true}, {int64(w.B*(w.S-1)) + 1, "eof", true}}
+		if fname == "FactoryFast" && !c.Thorough() {
+			cuts = cuts[3:4]
+		}
+		for ci, ct := range cuts {
+			r := gen.NewRng(gen.Mix(seed, 8155, uint64(ci), uint64(w.S), uint64(w.B)))
+			m := baseMatrix(r, w.S, w.Items)
+			st := Stream{Kind: "matrix", Seed: r.U64(), Matrix: m, Tail: "fail"}
+			fp := &mon.FaultPlan{Offset: ct.off, Kind: ct.kind, Sticky: ct.sticky}
+			what := fmt.Sprintf("source ends (%s, sticky=%v) at byte %d = %d whole samples + %d", ct.kind, ct.sticky, ct.off, ct.off/int64(w.B), ct.off%int64(w.B))
+			g := &c08Group{wf: fname, stream: st}
+			id++
+			g.seqID = id
+			scns = append(scns, Scn{ID: id, WF: w.Seq, Stream: st, Stub: true, Chunk: mon.ChunkPlan{Kind: "whole"}, Fault: fp, Note: "sequential reference: " + what})
+			for k := 0; k < 3; k++ {
+				id++
+				scns = append(scns, Scn{ID: id, WF: fname, Stream: st, Stub: true, Chunk: mon.ChunkPlan{Kind: "whole"}, Fault: fp, Delay: mon.DelayPlan{Mode: delays[k%4], Seed: uint64(id)}, Procs: procs[(k+ci)%4], Note: fmt.Sprintf("%s rep%d", what, k)})
+				raceOf[id] = k == 2 && ci == 3
 				g.fast = append(g.fast, id)
 			}
 			groups = append(groups, g)
